@@ -2,6 +2,7 @@ package asm
 
 import (
 	"fmt"
+	"strings"
 
 	"verif/ref/mars"
 )
@@ -18,9 +19,13 @@ type GenOpts struct {
 	OutsideRef bool // allow references to block labels from outside the block
 	NestedLabel bool // allow a block label on a block whose body starts with a nested FOR
 	Meta      bool
+	ExactLines int // when > 0: exactly this many instruction lines (plain programs only)
+	EndLabel  bool // allow a label on the END line
 }
 
-var labelPool = []string{"lp", "loop1", "tgt", "_x", "Start", "bomb", "a1", "ptr_2", "X", "imp", "gate", "scan_lp", "q", "zz9", "_", "L0", "hit", "dst", "src", "boot"}
+// the pools contain names that differ from a name of another pool only by letter case (gap/Gap, step/Step/STEP,
+// n/N, i/I, dist/DIST): symbols are case-sensitive, so these are different symbols
+var labelPool = []string{"lp", "loop1", "tgt", "_x", "Start", "bomb", "a1", "ptr_2", "X", "imp", "gate", "scan_lp", "q", "zz9", "_", "L0", "hit", "dst", "src", "boot", "Gap", "Step", "DIST", "I", "J", "Kk", "CNT"}
 var equPool = []string{"step", "STEP", "gap", "dist", "k1", "kk", "offs", "N", "first", "dbl"}
 var ctrPool = []string{"i", "j", "n", "cnt", "ii"}
 
@@ -189,6 +194,9 @@ func GenProg(r Rand, o GenOpts) *Prog {
 		maxLines = 1
 	}
 	n := 1 + r.Intn(maxLines)
+	if o.ExactLines > 0 && !o.UseFor {
+		n = o.ExactLines
+	}
 
 	// decide names up front so that forward references are possible
 	var allLabels []string
@@ -214,9 +222,15 @@ func GenProg(r Rand, o GenOpts) *Prog {
 	if !o.UseFor {
 		// plain program: labels may be referenced anywhere (backward and forward)
 		g.labels = allLabels
-		// every label must be placed exactly once
+		place := allLabels
+		if o.EndLabel && len(allLabels) >= 2 && r.Intn(3) == 0 {
+			// the last label goes on the END line: it denotes the address after the last instruction
+			p.EndLabels = []string{allLabels[len(allLabels)-1]}
+			place = allLabels[:len(allLabels)-1]
+		}
+		// every other label must be placed exactly once
 		labelAt := map[int][]string{}
-		for _, l := range allLabels {
+		for _, l := range place {
 			k := r.Intn(n)
 			labelAt[k] = append(labelAt[k], l)
 		}
@@ -302,6 +316,19 @@ func GenProg(r Rand, o GenOpts) *Prog {
 		}
 		if r.Intn(2) == 0 {
 			p.Author = pick(r, []string{"A. K. Dewdney", "anon", "J Doe"})
+		}
+		if r.Intn(12) == 0 {
+			// metadata longer than typical I/O buffers, with multi-byte characters at every alignment
+			n := longLens[r.Intn(len(longLens)-2)]
+			long := strings.Repeat("y", r.Intn(5)) + strings.Repeat("\u00e9\u6f22", n/5) + "z"
+			switch r.Intn(3) {
+			case 0:
+				p.Name = long
+			case 1:
+				p.Author = long
+			default:
+				p.Strategy = append(p.Strategy, long)
+			}
 		}
 		for k := r.Intn(3); k > 0; k-- {
 			p.Strategy = append(p.Strategy, pick(r, []string{"bombs every 4th cell", "then jumps", "2 stage", "x"}))
@@ -420,6 +447,17 @@ func (g *genState) genForProgram(p *Prog, allLabels []string, n int, pending []I
 	// most definitions come first, some between the items, the rest at the end (forward use in operands)
 	for len(pending) > 0 && r.Intn(3) != 0 {
 		emitDef()
+	}
+	if g.o.NestedLabel && len(topLabels) > 0 {
+		// a labelled block whose body consists of (or starts with) a nested block that refers to the label
+		l, _ := takeLabel()
+		inner := &For{Counter: "jn", Count: Lit{V: 1 + r.Intn(3)}, Body: []Item{&Instr{Op: "dat", A: Operand{Mode: '#', E: Ref{l}}, B: &Operand{Mode: '#', E: Ref{"jn"}}}}}
+		outer := &For{Labels: []string{l}, Counter: "io", Count: Lit{V: 1 + r.Intn(2)*r.Intn(3)}, Body: []Item{inner}}
+		if r.Intn(2) == 0 {
+			outer.Body = append(outer.Body, &Instr{Op: "dat", A: Operand{Mode: '#', E: Ref{"io"}}, B: &Operand{Mode: '#', E: Ref{l}}})
+		}
+		p.Items = append(p.Items, outer)
+		used += 4
 	}
 	for k := 0; k < n; k++ {
 		if r.Intn(3) == 0 {
